@@ -312,8 +312,12 @@ def check_data_inputs_aligned(
 
             # Check pandas objects share the same index
             if check_index:
+                # the checked arguments, however they were passed (positionally or by keyword)
                 pandas_args = [
-                    arg for arg in args if isinstance(arg, (pd.Series, pd.DataFrame))
+                    arg
+                    for name, arg in arguments.items()
+                    if (not args_to_check or name in args_to_check)
+                    and isinstance(arg, (pd.Series, pd.DataFrame))
                 ]
                 if pandas_args:
                     first_index = pandas_args[0].index
